@@ -5,3 +5,5 @@ pub mod tree;
 mod node;
 mod pool;
 mod entity;
+#[cfg(itree_verif)]
+pub mod verif;
